@@ -33,7 +33,8 @@ COMPONENTS = ['jsonesc', 'manifest']
 THEOREMS = ['C05_esc_table_matches_model', 'C05_key_tables_match_model', 'C05_escape_valid', 'C05_escape_string_json_valid',
             'C05_unescape_escape', 'C05_manifest_parse_roundtrip', 'C05_manifest_parse_roundtrip_finite',
             'C05_cli_default_roundtrip', 'C05_ws_erasure', 'C05_builtin_formats_ws', 'C05_toml_basic_string_ok',
-            'C05_python_string_ok', 'C05_safe_toml_plain_sound', 'C05_escape_key_toml_ok', 'C05_nonvacuous_hyps',
+            'C05_python_string_ok', 'C05_safe_toml_plain_sound', 'C05_escape_key_toml_ok', 'C05_safe_yaml_plain_chars',
+            'C05_safe_yaml_plain_core_string_refuted', 'C05_nonvacuous_hyps',
             'C05_nonvacuous_runs']
 ALLOWED_AXIOMS = set()
 
@@ -354,6 +355,11 @@ YAML_KEY_WORDS = ['null', 'Null', 'NULL', 'true', 'True', 'TRUE', 'false', 'y', 
                   '0', '00', '-0', '0.0', '0e0', '1e400', '-1e400', '.e5', 'e-', '9223372036854775808', 'inf', 'nan', 'Infinity']
 
 
+# YAML 1.2.2 core schema (10.3.2): plain scalars that are not strings
+YAML12_CORE = re.compile(r'(null|Null|NULL|~|true|True|TRUE|false|False|FALSE|[-+]?[0-9]+|0o[0-7]+|0x[0-9a-fA-F]+'
+                         r'|[-+]?(\.[0-9]+|[0-9]+(\.[0-9]*)?)([eE][-+]?[0-9]+)?|[-+]?\.(inf|Inf|INF)|\.(nan|NaN|NAN))\Z')
+
+
 def gen_key(rng):
     r = rng.random()
     if r < 0.45:
@@ -604,7 +610,7 @@ def check_keys(run, impl_exe, model_exe, rng, keys):
         run.count('key_cases')
         mt = model.get('kt%d' % i, 'NOOUTPUT').split('\t')
         my = model.get('ky%d' % i, 'NOOUTPUT').split('\t')
-        if len(mt) != 3 or len(my) != 3:
+        if len(mt) != 3 or len(my) != 4:
             run.violation('model-machinery', 'model driver failed on a key case: %s %s' % (mt[0][:40], my[0][:40]), replay, concrete=False)
             continue
         if mt[1] != mt[2] or my[0] != my[1] or my[2] != '1':
@@ -654,6 +660,12 @@ def check_keys(run, impl_exe, model_exe, rng, keys):
                 run.violation('yaml-key-correspondence', 'is_safe_yaml_plain(%r): implementation %s / model %s' % (k[:24], implain, plain), replay, concrete=False)
             if implain:
                 run.nontrivial.add(('yamlplain', k))
+                # YAML 1.2 core schema: the plain key must still be a string
+                core = bool(YAML12_CORE.match(k))
+                if core != (my[3] == '1'):
+                    run.violation('yaml12-core-spec-transcriptions-differ', 'Coq and Python transcriptions of the YAML 1.2 core schema differ on %r' % k, replay, concrete=False)
+                if core:
+                    run.violation('yaml12-plain-key-not-string', 'std.manifestYamlDoc({[%r]: 1}, quote_keys=false) = %r: under the YAML 1.2 core schema the plain key is a number, not the string' % (k, text[:40]), replay)
         # the implementation's own YAML reader
         f = impl.get('kp%d' % i)
         st, text = ok_text(f)
@@ -925,6 +937,7 @@ def check_targets(run, impl_exe, rng, values):
 # ---------------------------------------------------------------- part 5: the real CLI
 
 def check_cli(run, cli, model_exe, rng, values, numtab):
+    from concurrent.futures import ThreadPoolExecutor
     tmp = tempfile.mkdtemp(prefix='rsj-verif-c05.')
     try:
         mlines = []
@@ -932,6 +945,7 @@ def check_cli(run, cli, model_exe, rng, values, numtab):
             ev = expected(v)
             mlines.append('c%d\tcli\t-\t%s\t%s' % (i, numtable_field(numtab, doubles_of(ev, set())), enc(ev)))
         model = vlib.run_sharded(model_exe, mlines, 300)
+        jobs = []
         for i, v in enumerate(values):
             ev = expected(v)
             src = src_of(v, rng)
@@ -949,67 +963,81 @@ def check_cli(run, cli, model_exe, rng, values, numtab):
             if multi_ok:
                 modes.append(('multi', ['-m'], mf[2]))
             for name, flags, want in modes:
-                run.evaluations += 1
-                run.count('cli_' + name)
-                rp = dict(replay, mode=name)
-                outdir = os.path.join(tmp, 'out%d' % i)
-                if name == 'multi':
-                    os.makedirs(outdir, exist_ok=True)
-                    cmd = [cli, '-m', outdir, path]
-                else:
-                    cmd = [cli] + flags + [path]
+                jobs.append((i, ev, src, path, name, flags, want))
+
+        def run_job(job):
+            i, ev, src, path, name, flags, want = job
+            outdir = os.path.join(tmp, 'out%d' % i)
+            if name == 'multi':
+                os.makedirs(outdir, exist_ok=True)
+                cmd = [cli, '-m', outdir, path]
+            else:
+                cmd = [cli] + flags + [path]
+            try:
                 p = subprocess.run(cmd, stdout=subprocess.PIPE, stderr=subprocess.PIPE, timeout=60)
-                if p.returncode != 0:
-                    run.violation('cli-failed', 'rsjsonnet %s on %s exits %d: %s' % (' '.join(flags), src[:60], p.returncode, p.stderr.decode('utf-8', 'replace')[:80]), rp)
-                    continue
-                try:
-                    out = p.stdout.decode('utf-8')
-                except UnicodeDecodeError:
-                    run.violation('cli-not-utf8', 'rsjsonnet %s on %s: output is not UTF-8' % (' '.join(flags), src[:60]), rp)
-                    continue
-                if name == 'multi':
-                    docs, files = [], []
-                    for k, sub in ev[1]:
-                        try:
-                            content = open(os.path.join(outdir, k), encoding='utf-8').read()
-                        except Exception as e:
-                            content = None
-                        files.append((k, content))
-                        docs.append((content, sub))
-                    got = 'M' + ';'.join('%s=%s' % (cps(k), cps(c if c is not None else '<missing>')) for k, c in files)
-                    shutil.rmtree(outdir, ignore_errors=True)
-                elif name == 'yaml':
-                    got = out
-                    parts = out.split('---\n')[1:] if out else []
-                    docs = []
-                    if out and not out.endswith('...\n'):
-                        run.violation('cli-yaml-stream-end', 'rsjsonnet -y on %s: stream does not end with the document-end marker' % src[:60], rp)
-                    if parts:
-                        parts[-1] = parts[-1][:-4] if parts[-1].endswith('...\n') else parts[-1]
-                    if len(parts) != len(ev[1]):
-                        run.violation('cli-yaml-stream-count', 'rsjsonnet -y on %s: %d documents for %d items' % (src[:60], len(parts), len(ev[1])), rp)
-                    else:
-                        docs = list(zip(parts, ev[1]))
-                else:
-                    got = out
-                    docs = [(out, ev)]
-                bad = False
-                for text, sub in docs:
+            except subprocess.TimeoutExpired:
+                return (None, b'', b'timeout', [])
+            files = []
+            if name == 'multi' and p.returncode == 0:
+                for k, sub in ev[1]:
                     try:
-                        if text is None:
-                            raise NotJson('file missing')
-                        back = py_json_decode(text)
-                        if enc(back) != enc(sub):
-                            bad = True
-                            run.violation('json-value-differs', 'rsjsonnet %s on %s: a document decodes to a different value' % (' '.join(flags), src[:60]), rp)
-                        elif not text.endswith('\n'):
-                            bad = True
-                            run.violation('cli-no-trailing-newline', 'rsjsonnet %s on %s: document does not end with a newline' % (' '.join(flags), src[:60]), rp)
-                    except Exception as e:
+                        content = open(os.path.join(outdir, k), encoding='utf-8').read()
+                    except Exception:
+                        content = None
+                    files.append((k, content))
+                shutil.rmtree(outdir, ignore_errors=True)
+            return (p.returncode, p.stdout, p.stderr, files)
+
+        with ThreadPoolExecutor(max_workers=vlib.NCPU) as ex:
+            results = list(ex.map(run_job, jobs))
+        for job, (rc, stdout, stderr, files) in zip(jobs, results):
+            i, ev, src, path, name, flags, want = job
+            run.evaluations += 1
+            run.count('cli_' + name)
+            rp = {'kind': 'cli', 'source': src, 'mode': name}
+            if rc != 0:
+                run.violation('cli-failed', 'rsjsonnet %s on %s exits %s: %s' % (' '.join(flags), src[:60], rc, stderr.decode('utf-8', 'replace')[:80]), rp)
+                continue
+            try:
+                out = stdout.decode('utf-8')
+            except UnicodeDecodeError:
+                run.violation('cli-not-utf8', 'rsjsonnet %s on %s: output is not UTF-8' % (' '.join(flags), src[:60]), rp)
+                continue
+            if name == 'multi':
+                docs = [(c, sub) for (k, c), (_, sub) in zip(files, ev[1])]
+                got = 'M' + ';'.join('%s=%s' % (cps(k), cps(c if c is not None else '<missing>')) for k, c in files)
+            elif name == 'yaml':
+                got = out
+                parts = out.split('---\n')[1:] if out else []
+                docs = []
+                if out and not out.endswith('...\n'):
+                    run.violation('cli-yaml-stream-end', 'rsjsonnet -y on %s: stream does not end with the document-end marker' % src[:60], rp)
+                if parts:
+                    parts[-1] = parts[-1][:-4] if parts[-1].endswith('...\n') else parts[-1]
+                if len(parts) != len(ev[1]):
+                    run.violation('cli-yaml-stream-count', 'rsjsonnet -y on %s: %d documents for %d items' % (src[:60], len(parts), len(ev[1])), rp)
+                else:
+                    docs = list(zip(parts, ev[1]))
+            else:
+                got = out
+                docs = [(out, ev)]
+            bad = False
+            for text, sub in docs:
+                try:
+                    if text is None:
+                        raise NotJson('file missing')
+                    back = py_json_decode(text)
+                    if enc(back) != enc(sub):
                         bad = True
-                        run.violation(classify_invalid(text or ''), 'rsjsonnet %s on %s emits %r which is not valid JSON (%s)' % (' '.join(flags), src[:60], (text or '')[:40], str(e)[:50]), rp)
-                if got != want and not bad:
-                    run.violation('cli-correspondence', 'rsjsonnet %s on %s: output %r / model %r' % (' '.join(flags), src[:60], got[:60], (want or 'None')[:60]), rp, concrete=False)
+                        run.violation('json-value-differs', 'rsjsonnet %s on %s: a document decodes to a different value' % (' '.join(flags), src[:60]), rp)
+                    elif not text.endswith('\n'):
+                        bad = True
+                        run.violation('cli-no-trailing-newline', 'rsjsonnet %s on %s: document does not end with a newline' % (' '.join(flags), src[:60]), rp)
+                except Exception as e:
+                    bad = True
+                    run.violation(classify_invalid(text or ''), 'rsjsonnet %s on %s emits %r which is not valid JSON (%s)' % (' '.join(flags), src[:60], (text or '')[:40], str(e)[:50]), rp)
+            if got != want and not bad:
+                run.violation('cli-correspondence', 'rsjsonnet %s on %s: output %r / model %r' % (' '.join(flags), src[:60], got[:60], (want or 'None')[:60]), rp, concrete=False)
     finally:
         shutil.rmtree(tmp, ignore_errors=True)
 
@@ -1051,14 +1079,25 @@ def check(run):
     # build
     impl_exe, esc_exe, man_exe, cli = build_all()
 
+    import time as _t
+    T0 = _t.time()
+    def lap(name):
+        vlib.log('  [C05] %-10s %.1fs' % (name, _t.time() - T0))
+    lap('built')
     # 1. escaper
     strs = escaper_strings(rng, run.tier)
     check_escaper(run, impl_exe, esc_exe, rng, strs)
     check_tostring_strings(run, impl_exe, man_exe, rng, [s for s in strs if len(s) < 64][:200])
+    lap('escaper')
     # 2. keys
-    keys = list(YAML_KEY_WORDS) + [gen_key(rng) for _ in range(300 if quick else 6000)]
+    keys = list(YAML_KEY_WORDS)
+    kpath = os.path.join(vlib.VERIF, 'corpus', 'c05_keys.txt')
+    if os.path.exists(kpath):
+        keys = [json.loads(l) for l in open(kpath) if l.strip() and not l.startswith('#')] + keys
+    keys += [gen_key(rng) for _ in range(300 if quick else 6000)]
     keys = list(dict.fromkeys(k for k in keys if all(scalar(ord(c)) for c in k)))
     check_keys(run, impl_exe, esc_exe, rng, keys)
+    lap('keys')
     # 3. values x formats
     nvals = 500 if quick else 12000
     vals = corpus_values()
@@ -1075,18 +1114,21 @@ def check(run):
             cases.append((v, f))
     target_vals = [gen_value(rng, rng.choice([1, 2, 3, 4]), ident_keygen(rng) if rng.random() < 0.5 else (lambda: gen_key(rng))) for _ in range(250 if quick else 5000)]
     target_vals += [v for v in vals[:ncorpus]]
-    cli_vals = vals[:ncorpus] + [gen_value(rng, rng.choice([1, 2, 3, 5]), ident_keygen(rng) if rng.random() < 0.6 else None) for _ in range(60 if quick else 1200)]
-    cli_vals += [('a', [gen_value(rng, 2) for _ in range(rng.randint(0, 4))]) for _ in range(20 if quick else 300)]
+    cli_vals = vals[:ncorpus] + [gen_value(rng, rng.choice([1, 2, 3, 5]), ident_keygen(rng) if rng.random() < 0.6 else None) for _ in range(40 if quick else 1200)]
+    cli_vals += [('a', [gen_value(rng, 2) for _ in range(rng.randint(0, 4))]) for _ in range(12 if quick else 300)]
     dbl = set()
     for v in vals + cli_vals:
         doubles_of(expected(v), dbl)
     numtab = number_texts(run, impl_exe, dbl)
     run.count('distinct_doubles', len(dbl))
     check_values(run, impl_exe, man_exe, rng, cases, numtab)
+    lap('values')
     # 4. other targets
     check_targets(run, impl_exe, rng, target_vals)
+    lap('targets')
     # 5. CLI
     check_cli(run, cli, man_exe, rng, cli_vals, numtab)
+    lap('cli')
 
 
 def replay(run, path):
